@@ -35,6 +35,10 @@ type Rq struct {
 	Method string `json:"method"`
 	Path   int    `json:"path"`
 	Range  string `json:"range,omitempty"`
+	// BadHost: the request names a Host that net/http's request reader accepts but that cannot be turned into
+	// an upstream URL, and carries a body that is itself a well-formed request. Whatever the proxy answers
+	// (the exchange itself is not compared), the exchanges after it must be unaffected.
+	BadHost string `json:"bad_host,omitempty"`
 }
 
 type Case struct {
@@ -128,6 +132,7 @@ func runSeq(c Case, mode string) ([]obs, []string, string) {
 		}
 	}()
 	var out []obs
+	retried := map[string]int{}
 	for i, rq := range c.Requests {
 		req := px.Req{Method: rq.Method, Host: org.Addr(), Target: fmt.Sprintf("/p%d", rq.Path), ReqID: fmt.Sprintf("q%d", i)}
 		if rq.Range != "" {
@@ -135,6 +140,14 @@ func runSeq(c Case, mode string) ([]obs, []string, string) {
 		}
 		if rq.Method == "POST" {
 			req.Body = "post-body"
+		}
+		if rq.BadHost != "" && mode != "one-tunnel" {
+			out = append(out, obs{err: "bad-host exchange"}) // only meaningful on a kept-alive tunnel
+			continue
+		}
+		if rq.BadHost != "" {
+			req.Host = rq.BadHost
+			req.Body = fmt.Sprintf("GET /p0 HTTP/1.1\r\nHost: %s\r\nX-Verif-Req: smuggled\r\n\r\n", org.Addr())
 		}
 		var resp *px.Resp
 		var err error
@@ -152,12 +165,31 @@ func runSeq(c Case, mode string) ([]obs, []string, string) {
 		default:
 			resp, err = env.Plain(req)
 		}
+		if rq.BadHost != "" {
+			// not compared; a proxy may also close the tunnel after refusing the request
+			out = append(out, obs{err: "bad-host exchange"})
+			if mode == "one-tunnel" && (err != nil || resp.ReadErr != nil || resp.Header.Get("Connection") == "close") {
+				tun.Close()
+				tun = nil
+			}
+			continue
+		}
+		if err != nil && mode == "one-tunnel" && i > 0 && c.Requests[i-1].BadHost != "" && tun != nil {
+			// the proxy closed the tunnel after the refused exchange without saying so: one fresh tunnel is allowed
+			tun.Close()
+			if tun, err = env.Connect(org.Addr()); err == nil {
+				resp, err = tun.Do(req)
+			}
+		}
 		if err != nil {
 			out = append(out, obs{err: err.Error()})
 			if mode == "one-tunnel" {
 				return out, nil, env.Panics() // the tunnel is unusable after a framing error
 			}
 			continue
+		}
+		if resp.Retried > 0 {
+			retried[req.ReqID] += resp.Retried
 		}
 		ob := obs{status: resp.Status, body: resp.Body, header: resp.Header, cl: resp.CL, chunk: resp.Chunked}
 		if resp.ReadErr != nil {
@@ -170,13 +202,19 @@ func runSeq(c Case, mode string) ([]obs, []string, string) {
 	}
 	var olog []string
 	for _, e := range org.Log() {
+		// an exchange px had to repeat (net/http body hand-over artefact, see px.Plain) reached the origin more
+		// than once under the same id: count it once
+		if n := retried[e.ReqID]; n > 0 {
+			retried[e.ReqID] = n - 1
+			continue
+		}
 		olog = append(olog, fmt.Sprintf("%s %s range=%q cond=%v", e.Method, e.Target, e.Header.Get("Range"), e.Header.Get("If-None-Match") != ""))
 	}
 	return out, olog, env.Panics()
 }
 
 var sub = ev.Register("tunnel-differential",
-	"a generated sequence of 2-12 requests (GET/HEAD/POST, Range, hits and misses, statuses 200/204/404/500, sized and chunked bodies, per-resource unique headers and cookies) replayed against three fresh proxies with identically scripted origins: (a) one kept-alive CONNECT tunnel, (b) one tunnel per request, (c) plain proxying; oracle: per request status, body, X-Cache and end-to-end header multiset are equal across the three runs and so are the origin logs; in (a) no response carries another resource's X-Only header or cookie, Content-Range appears only on 206/416, X-Cache exactly once, Content-Length equals the body; non-trivial = >= 2 exchanges of different status or framing on the one tunnel; distinct by sequence",
+	"a generated sequence of 2-12 requests (GET/HEAD/POST, requests naming an unusable Host whose body is itself a well-formed request (not compared, but what follows them is), Range, hits and misses, statuses 200/204/404/500, sized and chunked bodies, per-resource unique headers and cookies) replayed against three fresh proxies with identically scripted origins: (a) one kept-alive CONNECT tunnel, (b) one tunnel per request, (c) plain proxying; oracle: per request status, body, X-Cache and end-to-end header multiset are equal across the three runs and so are the origin logs; in (a) no response carries another resource's X-Only header or cookie, Content-Range appears only on 206/416, X-Cache exactly once, Content-Length equals the body; non-trivial = >= 2 exchanges of different status or framing on the one tunnel; distinct by sequence",
 	func(c Case, o *ev.Obs) *ev.Failure {
 		a, la, pa := runSeq(c, "one-tunnel")
 		b, lb, pb := runSeq(c, "tunnel-per-request")
@@ -196,6 +234,10 @@ var sub = ev.Register("tunnel-differential",
 		// absolute checks on the kept-alive tunnel
 		for i, x := range a {
 			rq := c.Requests[i]
+			if rq.BadHost != "" {
+				o.Class("bad-host-exchange-on-tunnel")
+				continue
+			}
 			if x.err != "" {
 				return ev.Failf("tunnel.exchange-failed", "one-tunnel: request %d (%s /p%d %s) failed: %s (status %d, %d body bytes)", i, rq.Method, rq.Path, rq.Range, x.err, x.status, len(x.body))
 			}
@@ -228,6 +270,9 @@ var sub = ev.Register("tunnel-differential",
 			}
 			for i := range p {
 				rq := c.Requests[i]
+				if rq.BadHost != "" {
+					continue
+				}
 				if x[i].err != "" || p[i].err != "" {
 					if x[i].err != p[i].err {
 						return ev.Failf("tunnel.diff:error:"+name, "request %d (%s /p%d): %s error %q, plain error %q", i, rq.Method, rq.Path, name, x[i].err, p[i].err)
@@ -282,6 +327,9 @@ func drawCase(t *rapid.T) Case {
 			a := rapid.IntRange(0, l).Draw(t, "a")
 			b := rapid.IntRange(a, l+2).Draw(t, "b")
 			rq.Range = fmt.Sprintf("bytes=%d-%d", a, b)
+		}
+		if rapid.IntRange(0, 11).Draw(t, "bad-host") == 0 {
+			rq = Rq{Method: "POST", Path: rq.Path, BadHost: rapid.SampledFrom([]string{"bad host", "example.com:abc", "a%zzb", "[::1"}).Draw(t, "host")}
 		}
 		c.Requests = append(c.Requests, rq)
 	}
